@@ -214,10 +214,30 @@ func c10Dispose(e *Env) {
 		fi, v := ow.fi, ow.v
 		info := fi.Pkg.TypesInfo
 		fname := w.FuncName(fi.Obj)
-		isVar := func(e ast.Expr) bool { return usedVar(info, e) == v }
+		var cur *esp.Ctx // the context of the hook being run (parameters of inlined helpers resolve through it)
+		isVar := func(e ast.Expr) bool {
+			u := usedVar(info, e)
+			if u == nil {
+				return false
+			}
+			if cur != nil {
+				return cur.Root(u) == types.Object(v)
+			}
+			return u == v
+		}
+		isDisposeCall := func(f *types.Func) bool {
+			return esp.Is(f, pkgHTTP1, "HostClient", "closeConn") || esp.Is(f, pkgHTTP1, "HostClient", "releaseConn") || esp.Is(f, pkgHTTP1, "", "newUpgradeConn") || esp.Is(f, pkgHTTP1, "wantConn", "tryDeliver")
+		}
+		sites := map[*ast.CallExpr]bool{}
 		offeredVar := ""
 		rl := &esp.Rule{Name: rule, Init: "none",
+			// a helper that closes or pools the connection it is handed is explored inline
+			Inline: func(f *types.Func, d *ast.FuncDecl) bool {
+				// closeConn/releaseConn/… are the events themselves, not helpers around them
+				return !isDisposeCall(f) && inlineWhen(info, isDisposeCall, nil)(f, d)
+			},
 			Node: func(c *esp.Ctx, n ast.Node) {
+				cur = c
 				as, ok := n.(*ast.AssignStmt)
 				if !ok || len(as.Rhs) != 1 {
 					return
@@ -254,6 +274,14 @@ func c10Dispose(e *Env) {
 				}
 			},
 			Call: func(c *esp.Ctx, call *ast.CallExpr, f *types.Func) {
+				cur = c
+				if isDisposeCall(f) {
+					for _, a := range call.Args {
+						if isVar(a) {
+							sites[call] = true
+						}
+					}
+				}
 				site := fname + ":" + c.SiteKey(call)
 				dispose := func(kind string) {
 					switch c.S.TS {
@@ -309,6 +337,7 @@ func c10Dispose(e *Env) {
 				}
 			},
 			Exit: func(c *esp.Ctx) {
+				cur = c
 				if c.S.Panic {
 					return
 				}
@@ -330,19 +359,10 @@ func c10Dispose(e *Env) {
 				}
 			},
 		}
-		n := 0
-		ast.Inspect(fi.Decl.Body, func(nd ast.Node) bool {
-			if call, ok := nd.(*ast.CallExpr); ok {
-				f := calleeOf(info, call)
-				if (esp.Is(f, pkgHTTP1, "HostClient", "closeConn") || esp.Is(f, pkgHTTP1, "HostClient", "releaseConn") || esp.Is(f, pkgHTTP1, "", "newUpgradeConn") || esp.Is(f, pkgHTTP1, "wantConn", "tryDeliver")) && refersTo(info, call, v) {
-					n++
-				}
-			}
-			return true
-		})
-		nDispose += n
 		ex := esp.New(w, fi, rl)
 		vs := ex.Run(fi)
+		n := len(sites)
+		nDispose += n
 		r.Unit("%s: %s — variable %s from %s, %d dispose sites, %d states, %d exits", rule, fname, v.Name(), ow.src, n, ex.Steps, ex.Exits)
 		if len(vs) == 0 {
 			r.OK(rule, fname+":"+v.Name()+":paths", w.Pos(fi.Decl.Pos()), fmt.Sprintf("connection %s disposed exactly once on all %d exit states", v.Name(), ex.Exits))
@@ -365,9 +385,13 @@ func c10Slot(e *Env) {
 		r.Anchor(rule, "http1.HostClient.connsCount")
 		return
 	}
-	isDec := func(f *types.Func) bool { return esp.Is(f, pkgHTTP1, "HostClient", "decConnsCount") }
+	// the slot-releasing function and the dialing goroutine are found by role (private names may
+	// change): the one function that decrements connsCount, and what it starts with `go`
+	var decFn *core.FuncInfo
+	dialFns := map[*types.Func]*core.FuncInfo{}
+	isDec := func(f *types.Func) bool { return decFn != nil && f == decFn.Obj }
 	isMake := func(f *types.Func) bool { return esp.Is(f, pkgHTTP1, "", "acquireClientConn") }
-	isDialFor := func(f *types.Func) bool { return esp.Is(f, pkgHTTP1, "HostClient", "dialConnFor") }
+	isDialFor := func(f *types.Func) bool { return f != nil && dialFns[f] != nil }
 	incdecs := map[*core.FuncInfo][2]int{}
 	for _, fi := range declaredNonTest(w) {
 		info := fi.Pkg.TypesInfo
@@ -401,6 +425,33 @@ func c10Slot(e *Env) {
 		fis = append(fis, fi)
 	}
 	sort.Slice(fis, func(i, j int) bool { return fis[i].Decl.Pos() < fis[j].Decl.Pos() })
+	{
+		var decs []*core.FuncInfo
+		for _, fi := range fis {
+			if incdecs[fi][1] > 0 {
+				decs = append(decs, fi)
+			}
+		}
+		for _, fi := range decs {
+			if len(decs) == 1 || fi.Obj.Name() == "decConnsCount" {
+				decFn = fi
+			}
+		}
+		if decFn == nil {
+			r.Anchor(rule, fmt.Sprintf("the one function that decrements HostClient.connsCount (found %d)", len(decs)))
+			return
+		}
+		ast.Inspect(decFn.Decl.Body, func(n ast.Node) bool {
+			if gs, ok := n.(*ast.GoStmt); ok {
+				if f := calleeOf(decFn.Pkg.TypesInfo, gs.Call); f != nil {
+					if d := w.DeclOf(f); d != nil {
+						dialFns[f] = d
+					}
+				}
+			}
+			return true
+		})
+	}
 	r.Floor(rule, nInc, 1, "connsCount++ sites")
 	r.Floor(rule, nDec, 1, "connsCount-- sites")
 	run := func(fi *core.FuncInfo, init string, mode string) {
@@ -420,7 +471,7 @@ func c10Slot(e *Env) {
 						}
 						c.S.TS = "slot"
 					} else {
-						c.Violate(x.Pos(), fname+":raw-dec", "connsCount decremented outside decConnsCount")
+						c.Violate(x.Pos(), fname+":raw-dec", "connsCount decremented outside the slot-releasing function")
 					}
 				case "dec":
 					if x.Tok == token.DEC {
@@ -493,16 +544,20 @@ func c10Slot(e *Env) {
 		}
 		if c[1] > 0 {
 			if !isDec(fi.Obj) {
-				r.Fail(rule, w.FuncName(fi.Obj)+":raw-dec", w.Pos(fi.Decl.Pos()), "connsCount-- only inside decConnsCount", "decrement outside HostClient.decConnsCount")
+				r.Fail(rule, w.FuncName(fi.Obj)+":raw-dec", w.Pos(fi.Decl.Pos()), "connsCount-- only inside the slot-releasing function", "decrement outside "+w.FuncName(decFn.Obj))
 			}
 			run(fi, "todo", "dec")
 		}
 	}
-	if fi := w.Func("pkg/protocol/http1", "HostClient", "dialConnFor"); fi != nil {
-		run(fi, "slot", "dialfor")
-	} else {
-		r.Anchor(rule, "HostClient.dialConnFor")
+	var dials []*core.FuncInfo
+	for _, d := range dialFns {
+		dials = append(dials, d)
 	}
+	sort.Slice(dials, func(i, j int) bool { return dials[i].Decl.Pos() < dials[j].Decl.Pos() })
+	for _, fi := range dials {
+		run(fi, "slot", "dialfor")
+	}
+	r.Floor(rule, len(dials), 1, "functions the slot-releasing function starts with `go` (slot transfer)")
 	if fi := w.Func("pkg/protocol/http1", "HostClient", "closeConn"); fi != nil {
 		run(fi, "todo", "close")
 	} else {
@@ -528,10 +583,74 @@ func c10Clean(e *Env) {
 		}
 		info := fi.Pkg.TypesInfo
 		fname := w.FuncName(fi.Obj)
-		var releases []*ast.CallExpr
+		isRelease := func(f *types.Func) bool { return esp.Is(f, pkgHTTP1, "HostClient", "releaseConn") }
+		// a release site is a releaseConn(v) call, or a call handing v to a helper of the package
+		// that pools its parameter on the false side of a bool parameter
+		// (closeOrRelease(cc, shouldClose)): the decision is then the argument expression
+		type relSite struct {
+			call     *ast.CallExpr
+			decision ast.Expr // nil for a direct call (decision = enclosing if)
+		}
+		var releases []relSite
+		helperDecision := func(call *ast.CallExpr) (ast.Expr, bool) {
+			f := calleeOf(info, call)
+			d := w.DeclOf(f)
+			if d == nil || d.Pkg != fi.Pkg || d.Decl.Body == nil || isRelease(f) {
+				return nil, false
+			}
+			sig := f.Type().(*types.Signature)
+			hinfo := d.Pkg.TypesInfo
+			hpar := parents(d.Decl)
+			var dec ast.Expr
+			found := false
+			ast.Inspect(d.Decl.Body, func(nd ast.Node) bool {
+				rc, ok := nd.(*ast.CallExpr)
+				if !ok || !isRelease(calleeOf(hinfo, rc)) || len(rc.Args) != 1 {
+					return true
+				}
+				pv := usedVar(hinfo, rc.Args[0])
+				pi := -1
+				for k := 0; k < sig.Params().Len(); k++ {
+					if sig.Params().At(k) == pv {
+						pi = k
+					}
+				}
+				if pi < 0 || pi >= len(call.Args) || usedVar(info, call.Args[pi]) != v {
+					return true
+				}
+				// governing bool parameter
+				for cur := ast.Node(rc); cur != nil; cur = hpar[cur] {
+					is, isIf := hpar[cur].(*ast.IfStmt)
+					if !isIf {
+						continue
+					}
+					cond := unparen(is.Cond)
+					neg := false
+					if u, ok := cond.(*ast.UnaryExpr); ok && u.Op == token.NOT {
+						neg, cond = true, unparen(u.X)
+					}
+					bv := usedVar(hinfo, cond)
+					for k := 0; k < sig.Params().Len(); k++ {
+						if bv != nil && sig.Params().At(k) == bv && k < len(call.Args) {
+							if (cur == is.Else && !neg) || (cur == ast.Node(is.Body) && neg) {
+								dec, found = call.Args[k], true
+							}
+						}
+					}
+				}
+				return true
+			})
+			return dec, found
+		}
 		ast.Inspect(fi.Decl.Body, func(nd ast.Node) bool {
-			if call, ok := nd.(*ast.CallExpr); ok && esp.Is(calleeOf(info, call), pkgHTTP1, "HostClient", "releaseConn") && refersTo(info, call, v) {
-				releases = append(releases, call)
+			call, ok := nd.(*ast.CallExpr)
+			if !ok {
+				return true
+			}
+			if isRelease(calleeOf(info, call)) && refersTo(info, call, v) {
+				releases = append(releases, relSite{call, nil})
+			} else if dec, ok := helperDecision(call); ok {
+				releases = append(releases, relSite{call, dec})
 			}
 			return true
 		})
@@ -542,6 +661,9 @@ func c10Clean(e *Env) {
 		// typestate: dirty after an error outcome
 		rl := &esp.Rule{Name: rule, Init: "pre",
 			Track: func(k string) bool { return k == "err == nil" },
+			Inline: func(f *types.Func, d *ast.FuncDecl) bool {
+				return !isRelease(f) && inlineWhen(info, isRelease, nil)(f, d)
+			},
 			Node: func(c *esp.Ctx, nd ast.Node) {
 				if as, ok := nd.(*ast.AssignStmt); ok {
 					for _, l := range as.Lhs {
@@ -582,14 +704,14 @@ func c10Clean(e *Env) {
 				}
 			},
 			Call: func(c *esp.Ctx, call *ast.CallExpr, f *types.Func) {
-				if esp.Is(f, pkgHTTP1, "HostClient", "releaseConn") && refersTo(info, call, v) && c.S.TS == "dirty" {
+				if isRelease(f) && len(call.Args) == 1 && usedVar(info, call.Args[0]) != nil && c.Root(usedVar(info, call.Args[0])) == types.Object(v) && c.S.TS == "dirty" {
 					c.Violate(call.Pos(), fname+":"+c.SiteKey(call)+":release-after-error", "connection is put back into the pool on a path where an I/O or protocol error was observed after it was obtained")
 				}
 			},
 		}
 		ex := esp.New(w, fi, rl)
 		vs := ex.Run(fi)
-		r.Unit("%s: %s — %d releaseConn sites, %d states, %d exits", rule, fname, len(releases), ex.Steps, ex.Exits)
+		r.Unit("%s: %s — %d release sites, %d states, %d exits", rule, fname, len(releases), ex.Steps, ex.Exits)
 		if len(vs) == 0 {
 			r.OK(rule, fname+":no-release-after-error", w.Pos(fi.Decl.Pos()), "releaseConn unreachable after an observed error")
 		}
@@ -626,19 +748,30 @@ func c10Clean(e *Env) {
 			}
 			return true
 		})
-		for i, rel := range releases {
+		for i, site := range releases {
+			rel := site.call
 			key := fmt.Sprintf("%s:releaseConn#%d:choice", fname, i+1)
 			ok := false
 			why := "releaseConn is not on the false side of a close decision"
-			for cur := ast.Node(rel); cur != nil && !ok; cur = par[cur] {
-				is, isIf := par[cur].(*ast.IfStmt)
-				if !isIf || cur != is.Else && !(cur == ast.Node(is.Body)) {
-					continue
+			// the decision expressions whose false outcome leads to pooling
+			var decisions []ast.Expr
+			if site.decision != nil {
+				decisions = append(decisions, site.decision)
+			} else {
+				for cur := ast.Node(rel); cur != nil; cur = par[cur] {
+					is, isIf := par[cur].(*ast.IfStmt)
+					if isIf && cur == is.Else {
+						decisions = append(decisions, is.Cond) // `if close { closeConn } else { releaseConn }`
+					}
 				}
-				inElse := cur == is.Else
+			}
+			for _, dexpr := range decisions {
+				if ok {
+					break
+				}
 				// collect bool idents of the condition
 				var vars []*types.Var
-				ast.Inspect(is.Cond, func(nd ast.Node) bool {
+				ast.Inspect(dexpr, func(nd ast.Node) bool {
 					if id, ok := nd.(*ast.Ident); ok {
 						if lv, ok := info.Uses[id].(*types.Var); ok && !lv.IsField() {
 							vars = append(vars, lv)
@@ -646,9 +779,6 @@ func c10Clean(e *Env) {
 					}
 					return true
 				})
-				if !inElse {
-					continue // accepted form: `if close { closeConn } else { releaseConn }`
-				}
 				for _, dv := range vars {
 					// all assignments of dv
 					good, total := 0, 0
